@@ -37,3 +37,19 @@ Proof.
   destruct s as [|c s]; [reflexivity|]. cbn [length Nat.eqb is_nil negb andb].
   apply andb_comm.
 Qed.
+
+(* the same for topic names: every non-empty topic publish() accepts is a valid topic name of C11 *)
+Lemma memz_false_notin c s : memz c s = false <-> ~ In c s.
+Proof.
+  induction s as [|x s IH]; cbn [memz In]; [tauto|].
+  rewrite orb_false_iff, IH. split.
+  - intros [H1 H2] [H|H]; [lia|tauto].
+  - intros H; split; [destruct (x =? c) eqn:E; [exfalso; apply H; left; lia|reflexivity] | tauto].
+Qed.
+
+Theorem accepted_topics_are_valid t : topic_check t = Ok 0 -> t <> [] -> valid_topic t = true.
+Proof.
+  intros H Hne. apply topic_grammar in H as (Hp & Hh & _).
+  unfold valid_topic, PLUS, HASH. apply memz_false_notin in Hp, Hh. rewrite Hp, Hh.
+  destruct t; [congruence|reflexivity].
+Qed.
